@@ -553,13 +553,18 @@ func (l *IPFSLog) Join(otherLog iface.IPFSLog, size int) (iface.IPFSLog, error) 
 		return l, nil
 	}
 
+	// Take one consistent snapshot of the other log before locking this one:
+	// holding both locks at once deadlocks two logs joining each other, and
+	// reading the entries and the heads separately can see two different states
+	otherEntries, otherHeads := snapshotForJoin(otherLog)
+
 	defer verifPoint("unlock.w", l)
 	verifPoint("lock.w", l)
 	l.lock.Lock()
 	defer l.lock.Unlock()
 
 	verifPoint("join.locked", l)
-	newItems := difference(otherLog.GetEntries(), otherLog.RawHeads().Slice(), l)
+	newItems := difference(otherEntries, otherHeads.Slice(), l)
 
 	wg := &sync.WaitGroup{}
 	wg.Add(newItems.Len())
@@ -620,7 +625,7 @@ func (l *IPFSLog) Join(otherLog iface.IPFSLog, size int) (iface.IPFSLog, error) 
 	}
 
 	verifPoint("join.beforeHeads", l)
-	mergedHeads := entry.FindHeads(l.heads.Merge(otherLog.RawHeads()))
+	mergedHeads := entry.FindHeads(l.heads.Merge(otherHeads))
 
 	for idx, e := range mergedHeads {
 		// notReferencedByNewItems
@@ -657,6 +662,18 @@ func (l *IPFSLog) Join(otherLog iface.IPFSLog, size int) (iface.IPFSLog, error) 
 	l.Clock = entry.NewLamportClock(clockID, clockTime)
 
 	return l, nil
+}
+
+// snapshotForJoin returns the entries and the heads of a log as they were at one instant
+func snapshotForJoin(otherLog iface.IPFSLog) (iface.IPFSLogOrderedEntries, iface.IPFSLogOrderedEntries) {
+	if o, ok := otherLog.(*IPFSLog); ok {
+		o.lock.RLock()
+		defer o.lock.RUnlock()
+
+		return o.Entries.Copy(), o.heads
+	}
+
+	return otherLog.GetEntries(), otherLog.RawHeads()
 }
 
 func difference(entriesA iface.IPFSLogOrderedEntries, headsA []iface.IPFSLogEntry, logB *IPFSLog) iface.IPFSLogOrderedEntries {
